@@ -27,6 +27,9 @@ def scalar(x, site, what):
 
 
 def gen_val(rng):
+    if rng.random() < 0.1:
+        # very dilute species: products of two such densities are far below any absolute floor one might be tempted to add
+        return {'t': 'float', 'v': math.exp(rng.uniform(math.log(1e-12), math.log(1e-6)))}
     r = rng.random()
     if r < 0.15:
         return {'t': 'int', 'v': rng.randrange(1, 6)}
